@@ -581,6 +581,38 @@ def env_without(env, nm):
     return {k: v for k, v in env.items() if k != nm}
 
 
+def u_stale(full=False):
+    """a compound over a local variable sits inside a wide operator, the variable is re-assigned and
+    the same compound is used again (cached sub-expressions must not survive the re-binding)"""
+    inits = ["a and c", "a ^ c", "a or not c"]
+    comps = ["(b and t)", "(b or t)", "(b ^ t)", "(not t)"]
+    conts = [
+        "e or not (%s or (c and d) or a)",
+        "%s or (c and d) or a",
+        "(c and d) or %s or a",
+        "a or (c and d) or (d and e) or %s",
+        "%s and (c or d) and e",
+        "%s ^ (c and d) ^ a",
+        "e and not %s",
+        "(c and d and %s) or (a and not e)",
+    ]
+    reas = ["a ^ d", "not t", "d and e"]
+    uses = ["%s ^ c", "%s and e", "(%s or a) ^ (%s and d)"]
+    out = []
+    k = 0
+    for i0 in inits:
+        for cp in comps:
+            for ct in conts:
+                for r in reas:
+                    for u in uses:
+                        k += 1
+                        if not full and k % 8 != 1:
+                            continue
+                        body = ["t = %s" % i0, "u = %s" % (ct % cp), "t = %s" % r, "v = %s" % (u.replace("%s", cp)), "return (u, v)"]
+                        out.append(("ctl-stale", _f(["a: bool", "b: bool", "c: bool", "d: bool", "e: bool"], "Tuple[bool, bool]", body)))
+    return out
+
+
 def u_prog_random(n=300, seed=20260923):
     rnd = random.Random(seed)
     out = []
